@@ -109,7 +109,10 @@ def file_bytes(fl):
 # `<root>/work`: elsewhere, a sibling whose name starts with the working
 # directory's name, and the same sibling given as a relative ../ path
 HOWS = ['explicit', 'default', 'subdir', 'glob', 'outside',
-        'outside_sibling', 'outside_rel']
+        'outside_sibling', 'outside_rel', 'tmpdir', 'tmpdir_sub']
+# (tmpdir, tmpdir_sub: the command writes its files under $TMPDIR, the
+# scratch area gentest hands it, or in a sub-directory it makes there)
+TMPDIR_HOWS = {'tmpdir': '', 'tmpdir_sub': 'report/'}
 OUTSIDE = {'outside': 'elsewhere', 'outside_sibling': 'work_out',
            'outside_rel': 'work2'}
 
@@ -145,7 +148,9 @@ def command_case(draw, tier='quick'):
                              for ln in texts[0]['lines']] + ['plain ascii']
         texts[1]['lines'] = texts[1]['lines'] + ['d\u00e9j\u00e0 vu']
         two_dirs = True
-    exit_code = draw(st.sampled_from([0, 0, 0, 1, 2, 3]))
+    # (-9, -15: the command's own shell dies by that signal)
+    exit_code = draw(st.sampled_from([0, 0, 0, 0, 0, 0, 1, 1, 2, 2, 3, 3, -9,
+                                      -15]))
     how = draw(st.sampled_from(HOWS))
     if not files:
         how = 'default'
@@ -200,7 +205,7 @@ def valid_case(case):
                     return False
                 if f.get('pad_to') not in (None, 4096, 8192, 16384, 65536):
                     return False
-        return (case['exit'] in (0, 1, 2, 3)
+        return (case['exit'] in (0, 1, 2, 3, -9, -15)
                 and case['how'] in HOWS
                 and all(isinstance(a, str) and a in CMD_ARGS
                         for a in case.get('args', []))
@@ -338,20 +343,40 @@ class Workdir(object):
     def write_cmd(self, exit_code, skip=None):
         lines = ['cat "%s"' % self.payload_path('stdout.txt'),
                  'cat "%s" 1>&2' % self.payload_path('stderr.txt')]
+        sub = TMPDIR_HOWS.get(self.case['how'])
+        if sub:
+            lines.append('mkdir -p "$TMPDIR/%s"' % sub)
         for (i, fl) in enumerate(self.case['files']):
             if skip is not None and i == skip:
+                continue
+            if sub is not None:
+                lines.append('cp "%s" "$TMPDIR/%s%s"' % (
+                    self.payload_path('f%d' % i), sub, fl['name']))
+                if len(self.case['stdout']) % 2 == 0 and (
+                        self.case['n'] >= 2):
+                    # (what varies from run to run is only recognised when
+                    # gentest runs the command more than once)
+                    lines.append('echo "wrote $TMPDIR/%s%s"'
+                                 % (sub, fl['name']))
                 continue
             lines.append('cp %s"%s" "%s"' % (
                 '-p ' if self.preexisting else '',
                 self.payload_path('f%d' % i), self.out_name(fl)))
-        lines.append('exit %d' % exit_code)
+        if exit_code < 0:
+            lines.append('kill -%d $$' % -exit_code)
+        else:
+            lines.append('exit %d' % exit_code)
         with open(os.path.join(self.w, 'cmd.sh'), 'w') as f:
             f.write('\n'.join(lines) + '\n')
 
     def command(self):
         import shlex
         args = self.case.get('args') or []
-        return ' '.join(['sh', './cmd.sh'] + [shlex.quote(a) for a in args])
+        # (exec: the shell that gentest starts IS the script's shell, so
+        # that a signal it dies by is the command's own fate)
+        pre = ['exec'] if self.case['exit'] < 0 else []
+        return ' '.join(pre + ['sh', './cmd.sh']
+                        + [shlex.quote(a) for a in args])
 
     def ref_args(self):
         how = self.case['how']
